@@ -13,6 +13,7 @@ import (
 
 	"github.com/MixinNetwork/mixin/common"
 	"github.com/MixinNetwork/mixin/crypto"
+	"github.com/MixinNetwork/mixin/kernel/internal/clock"
 	"github.com/MixinNetwork/mixin/storage"
 	"github.com/MixinNetwork/mixin/verifmc"
 	"github.com/MixinNetwork/mixin/verifmc/fixc"
@@ -62,6 +63,10 @@ func (s *c29Store) ReadAllNodes(threshold uint64, withState bool) []*common.Node
 
 func (s *c29Store) AddNodeOperation(tx *common.VersionedTransaction, timestamp, threshold uint64, finalized bool) error {
 	return nil
+}
+
+func (s *c29Store) ListNodeWorks(cids []crypto.Hash, day uint32) (map[crypto.Hash][2]uint64, error) {
+	return map[crypto.Hash][2]uint64{}, nil
 }
 
 func (s *c29Store) ReadTransaction(hash crypto.Hash) (*common.VersionedTransaction, string, error) {
@@ -227,6 +232,7 @@ func TestMC_C29(t *testing.T) {
 		"oldest/newest accepted node = first/last of the accepted members ordered by (acceptance timestamp, node id text), the order every node derives",
 		"query instants are later than every membership record (the one instant now == epoch is skipped: no node is accepted strictly before it)",
 		"documented windows: accept/cancel/remove epoch-hours 13..19, mint 7..9, pledge = outside both",
+		"history part: every sequence (depth bound 3 quick / 4 thorough) of calls that receive the node's cached membership slices, on one node with per-peer chain states, is replayed from scratch; after every step the elections and removal candidates over a timestamp menu must equal those of a node freshly loaded from the same store and the cached membership lists must be unchanged; the local clock is pinned (mock) to 15:30 of day 300",
 		"intra-day part: the oldest node is removed at 14:00 and/or a node is accepted at 15:00 of day d; two nodes are asked the same instants of that day in ascending resp. descending order, a third is reloaded (LoadConsensusNodes) before every instant and serves as the order-free reference")
 
 	// ---- configurations ----
@@ -486,26 +492,33 @@ func TestMC_C29(t *testing.T) {
 	// ---- membership changes inside a day, query order ----
 	c29IntraDay(c)
 
+	// ---- histories of read-only-looking calls on one node vs a fresh node ----
+	c29Histories(c)
+
 	c.Sample(map[string]any{"n": 7, "pattern": "equal", "extra": "none", "op": "remove", "day": 0, "hour": 13, "minute": 0, "expect": "elected is an interior accepted node; no candidate (only 7 accepted)"})
 	c.Sample(map[string]any{"n": 50, "pattern": "tie-mid", "extra": "removed", "op": "remove", "day": lastDay, "hour": 19, "minute": 59, "expect": "candidate = oldest accepted; elected != candidate on both nodes"})
 	c.Sample(map[string]any{"n": 8, "pattern": "increasing", "extra": "pledging", "op": "mint", "day": 6, "hour": 7, "minute": 0, "expect": "pledging newest node is never elected nor shields the newest accepted node"})
 	c.Sample(map[string]any{"predicate": "checkConsensusAcceptHour", "day": 1, "hour_start": 20, "delta_ns": -1, "expect": "true (19:59:59.999999999)"})
 
-	c.Require(outcomes["elected"] > 0 && outcomes["not-elected-class"] > 0, "elections never produced both elected and free classes: %v", outcomes)
-	c.Require(outcomes["remove-elected-with-candidate"] > 0, "no removal election was ever compared with a removal candidate")
-	c.Require(outcomes["remove-possibility:no-candidate:still-pledging"] > 0 && outcomes["remove-possibility:no-candidate:invalid-node-remove-hour"] > 0 &&
-		outcomes["remove-possibility:no-candidate:all-old-nodes-removed"] > 0 && outcomes["remove-possibility:candidate"] > 0,
-		"removal possibility classes not all reached: %v", outcomes)
-	if lastDay >= 50 && !c.Expired("final") {
-		c.Require(outcomes["config-all-interior-positions-elected"] == int64(len(cfgs)), "only %d of %d configurations elected every interior position", outcomes["config-all-interior-positions-elected"], len(cfgs))
+	if c.Violations() == 0 && !c.Expired("final guards") {
+		c.Require(outcomes["elected"] > 0 && outcomes["not-elected-class"] > 0, "elections never produced both elected and free classes: %v", outcomes)
+		c.Require(outcomes["remove-elected-with-candidate"] > 0, "no removal election was ever compared with a removal candidate")
+		c.Require(outcomes["remove-possibility:no-candidate:still-pledging"] > 0 && outcomes["remove-possibility:no-candidate:invalid-node-remove-hour"] > 0 &&
+			outcomes["remove-possibility:no-candidate:all-old-nodes-removed"] > 0 && outcomes["remove-possibility:candidate"] > 0,
+			"removal possibility classes not all reached: %v", outcomes)
+		if lastDay >= 50 && !c.Expired("final") {
+			c.Require(outcomes["config-all-interior-positions-elected"] == int64(len(cfgs)), "only %d of %d configurations elected every interior position", outcomes["config-all-interior-positions-elected"], len(cfgs))
+		}
 	}
 }
 
 // c29EntryPoints drives validateNodePledgeSnapshot, validateNodeCancelSnapshot,
 // validateNodeRemoveSnapshot and checkNodeAcceptPossibility (the gate of
 // validateNodeAcceptSnapshot) at every hour start and +-1 ns of day 2, on a
-// 10-node membership (with a pledging node for accept/cancel). Raised only
-// when an operation is let through outside its window.
+// 10-node membership (with a pledging node for accept/cancel), under three
+// local clocks. Raised when an operation gets past its hour check outside its
+// window, is refused for its hour inside, or when the verdict for one
+// snapshot timestamp depends on the local clock.
 func c29EntryPoints(c *verifmc.Check) {
 	plain := c29Config{10, 0, 0}.records()
 	var order []int
@@ -556,75 +569,105 @@ func c29EntryPoints(c *verifmc.Check) {
 
 	day := 2
 	counts := map[string]int64{}
-	for hour := 0; hour < 24; hour++ {
-		base := c29Epoch + uint64(day)*c29Day + uint64(hour)*c29Hour
-		for _, d := range []int64{-1, 0, 1} {
-			ts := uint64(int64(base) + d)
-			h := hour
-			if d < 0 {
-				h = (hour + 23) % 24
-			}
-			type ep struct {
-				name   string
-				inside bool
-				run    func() error
-			}
-			eps := []ep{
-				{"pledge", c29InPledge(h), func() error {
-					s := &common.Snapshot{Version: common.SnapshotVersionCommonEncoding, NodeId: nodeP.electSnapshotNode(common.TransactionTypeNodePledge, ts), Timestamp: ts}
-					return nodeP.validateNodePledgeSnapshot(s, pledgeVer, false)
-				}},
-				{"cancel", c29InAccept(h), func() error {
-					s := &common.Snapshot{Version: common.SnapshotVersionCommonEncoding, NodeId: pledgingId, Timestamp: ts}
-					return nodeQ.validateNodeCancelSnapshot(s, cancelVer, false)
-				}},
-				{"remove", c29InAccept(h), func() error {
-					s := &common.Snapshot{Version: common.SnapshotVersionCommonEncoding, NodeId: nodeP.electSnapshotNode(common.TransactionTypeNodeRemove, ts), Timestamp: ts}
-					return nodeP.validateNodeRemoveSnapshot(s, removeVer, false)
-				}},
-				{"accept", c29InAccept(h), func() error {
-					return chainQ.checkNodeAcceptPossibility(ts, true)
-				}},
-			}
-			for _, e := range eps {
-				var err error
-				p := verifmc.Catch(func() { err = e.run() })
-				c.Eval(1)
-				c.Distinct(fmt.Sprintf("entry|%s|%d|%d", e.name, hour, d))
-				rp := map[string]any{"entry": e.name, "day": day, "hour": hour, "delta_ns": d}
-				if p != nil {
-					c.Require(false, "entry point %s panicked at hour %d %+d: %v", e.name, hour, d, p)
-					continue
+	// the local clock is varied independently of the snapshot timestamp: the
+	// real one (years after day 2), 15:30 of day 3 (inside the 13..19 window)
+	// and 22:30 of day 3 (outside every window but pledge)
+	clocks := []struct {
+		name string
+		at   uint64
+	}{{"real", 0}, {"day3-15:30", c29Epoch + 3*c29Day + 15*c29Hour + 30*uint64(time.Minute)}, {"day3-22:30", c29Epoch + 3*c29Day + 22*c29Hour + 30*uint64(time.Minute)}}
+	defer clock.Reset()
+	verdicts := map[string]string{} // entry|hour|delta -> verdict under the first clock
+	for ci, ck := range clocks {
+		clock.Reset()
+		if ck.at != 0 {
+			clock.MockDiff(time.Duration(int64(ck.at) - time.Now().UnixNano()))
+		}
+		for hour := 0; hour < 24; hour++ {
+			base := c29Epoch + uint64(day)*c29Day + uint64(hour)*c29Hour
+			for _, d := range []int64{-1, 0, 1} {
+				ts := uint64(int64(base) + d)
+				h := hour
+				if d < 0 {
+					h = (hour + 23) % 24
 				}
-				hourErr := err != nil && strings.Contains(err.Error(), " hour ")
-				switch {
-				case !e.inside && err == nil:
-					counts[e.name+":accepted-outside"]++
-					c.Violation("window:validate-"+e.name+"-outside", fmt.Sprintf("%s operation passes its snapshot validation at epoch-hour %d (day %d, hour start %d %+d ns), outside its window", e.name, h, day, hour, d), rp)
-				case !e.inside && !hourErr:
-					counts[e.name+":rejected-outside-other-reason"]++
-				case !e.inside:
-					counts[e.name+":rejected-outside"]++
-				case hourErr:
-					counts[e.name+":hour-rejected-inside"]++
-					c.Stricter(e.name + " refused for its hour inside the documented window")
-				case err == nil:
-					counts[e.name+":passed-inside"]++
-				default:
-					counts[e.name+":inside-hour-ok-later-check-failed"]++
+				type ep struct {
+					name   string
+					inside bool
+					run    func() error
+				}
+				eps := []ep{
+					{"pledge", c29InPledge(h), func() error {
+						s := &common.Snapshot{Version: common.SnapshotVersionCommonEncoding, NodeId: nodeP.electSnapshotNode(common.TransactionTypeNodePledge, ts), Timestamp: ts}
+						return nodeP.validateNodePledgeSnapshot(s, pledgeVer, false)
+					}},
+					{"cancel", c29InAccept(h), func() error {
+						s := &common.Snapshot{Version: common.SnapshotVersionCommonEncoding, NodeId: pledgingId, Timestamp: ts}
+						return nodeQ.validateNodeCancelSnapshot(s, cancelVer, false)
+					}},
+					{"remove", c29InAccept(h), func() error {
+						s := &common.Snapshot{Version: common.SnapshotVersionCommonEncoding, NodeId: nodeP.electSnapshotNode(common.TransactionTypeNodeRemove, ts), Timestamp: ts}
+						return nodeP.validateNodeRemoveSnapshot(s, removeVer, false)
+					}},
+					{"accept", c29InAccept(h), func() error {
+						return chainQ.checkNodeAcceptPossibility(ts, true)
+					}},
+				}
+				for _, e := range eps {
+					var err error
+					p := verifmc.Catch(func() { err = e.run() })
+					c.Eval(1)
+					c.Distinct(fmt.Sprintf("entry|%s|%d|%d|%s", e.name, hour, d, ck.name))
+					rp := map[string]any{"entry": e.name, "day": day, "hour": hour, "delta_ns": d, "local_clock": ck.name}
+					where := fmt.Sprintf("epoch-hour %d (day %d, hour start %d %+d ns, local clock %s)", h, day, hour, d, ck.name)
+					if p != nil {
+						c.Require(false, "entry point %s panicked at hour %d %+d: %v", e.name, hour, d, p)
+						continue
+					}
+					hourErr := err != nil && strings.Contains(err.Error(), " hour ")
+					verdict := ""
+					switch {
+					case !e.inside && err == nil:
+						verdict = "accepted-outside"
+						c.Violation("window:"+e.name+"-outside", fmt.Sprintf("%s operation passes its snapshot validation at %s, outside its window", e.name, where), rp)
+					case !e.inside && !hourErr:
+						// on this fixture the hour is the only condition that fails outside the window
+						verdict = "hour-check-passed-outside"
+						c.Violation("window:"+e.name+"-outside", fmt.Sprintf("%s operation gets past its hour check at %s, outside its window (later error: %v)", e.name, where, err), rp)
+					case !e.inside:
+						verdict = "rejected-outside"
+					case hourErr:
+						verdict = "hour-rejected-inside"
+						c.Violation("window:"+e.name+"-rejected-inside", fmt.Sprintf("%s operation is refused for its hour at %s, inside its window: %v", e.name, where, err), rp)
+					case err == nil:
+						verdict = "passed-inside"
+					default:
+						verdict = "inside-hour-ok-later-check-failed"
+					}
+					counts[e.name+":"+verdict]++
+					vk := fmt.Sprintf("%s|%d|%d", e.name, hour, d)
+					if ci == 0 {
+						verdicts[vk] = verdict
+					} else if verdicts[vk] != verdict {
+						counts[e.name+":depends-on-local-clock"]++
+						c.Violation("window:depends-on-local-clock:"+e.name, fmt.Sprintf("%s operation at %s: verdict %q, but %q for the same snapshot timestamp under local clock %s", e.name, where, verdict, verdicts[vk], clocks[0].name), rp)
+					}
 				}
 			}
 		}
 	}
+	clock.Reset()
 	for k, v := range counts {
 		c.Outcome("entry:" + k)
 		c.Set("count:entry:"+k, v)
 	}
-	for _, name := range []string{"pledge", "cancel", "remove", "accept"} {
-		c.Require(counts[name+":rejected-outside"] > 0, "entry %s never rejected for its hour outside the window: %v", name, counts)
+	if c.Violations() == 0 {
+		for _, name := range []string{"pledge", "cancel", "remove", "accept"} {
+			c.Require(counts[name+":rejected-outside"] > 0, "entry %s never rejected for its hour outside the window: %v", name, counts)
+		}
+		c.Require(counts["pledge:passed-inside"] > 0 && counts["cancel:passed-inside"] > 0 && counts["accept:passed-inside"] > 0, "entry points never passed inside their windows: %v", counts)
+		c.Require(counts["remove:inside-hour-ok-later-check-failed"] > 0, "remove entry never got past its hour check: %v", counts)
 	}
-	c.Require(counts["pledge:passed-inside"] > 0 && counts["cancel:passed-inside"] > 0 && counts["accept:passed-inside"] > 0, "entry points never passed inside their windows: %v", counts)
-	c.Require(counts["remove:inside-hour-ok-later-check-failed"] > 0, "remove entry never got past its hour check: %v", counts)
 }
 
 // c29IntraDay: memberships that change inside an epoch day. kind 0: the oldest
@@ -811,6 +854,259 @@ func c29IntraDay(c *verifmc.Check) {
 		c.Outcome(k)
 		c.Set("count:"+k, v)
 	}
-	c.Require(counts["intraday:membership-changed"] == int64(len(jobs)) || c.Expired("final"), "membership did not change inside the day in every intra-day configuration (%d of %d)", counts["intraday:membership-changed"], len(jobs))
+	if c.Violations() > 0 || c.Expired("intra-day guards") {
+		return
+	}
+	c.Require(counts["intraday:membership-changed"] == int64(len(jobs)), "membership did not change inside the day in every intra-day configuration (%d of %d)", counts["intraday:membership-changed"], len(jobs))
 	c.Require(counts["intraday:elected"] > 0 && counts["intraday:candidate"] > 0 && counts["intraday:no-candidate:invalid-period"] > 0, "intra-day outcome classes not reached: %v", counts)
+}
+
+// c29Fingerprint renders every cached membership list of a node.
+func c29Fingerprint(node *Node) string {
+	var b strings.Builder
+	put := func(cn *CNode) {
+		fmt.Fprintf(&b, "%s/%s/%d/%s/%s;", cn.IdForNetwork, cn.State, cn.Timestamp, cn.Transaction, cn.Signer.PublicSpendKey)
+	}
+	for _, cn := range node.allNodesSortedWithState {
+		put(cn)
+	}
+	for _, seqs := range [][]*NodeStateSequence{node.nodeStateSequences, node.acceptedNodeStateSequences} {
+		b.WriteString("|")
+		for _, sq := range seqs {
+			fmt.Fprintf(&b, "@%d:", sq.Timestamp)
+			for _, cn := range sq.NodesWithoutState {
+				put(cn)
+			}
+		}
+	}
+	h := crypto.Blake3Hash([]byte(b.String()))
+	return h.String()
+}
+
+// c29Histories: one node with a chain state per accepted peer (as the running
+// kernel has). Steps are the calls that are handed the node's cached
+// membership slices; none of them may change what the node elects.
+func c29Histories(c *verifmc.Check) {
+	depth := verifmc.Pick(c, 3, 4)
+	pinned := c29Epoch + 300*c29Day + 15*c29Hour + 30*uint64(time.Minute)
+	clock.Reset()
+	clock.MockDiff(time.Duration(int64(pinned) - time.Now().UnixNano()))
+	defer clock.Reset()
+
+	stepNames := []string{
+		"elect-all", "working-list+filter-leading(no-peer-lagging)", "working-list+filter-leading(some-peers-lagging)", "working-list+filter-leading(all-peers-lagging)",
+		"QueueState", "ListMintWorks", "determineBestRound", "checkRemovePossibility+PledgingNode+ReadAllNodesWithoutState", "ConsensusKeys+ConsensusThreshold",
+		"validateNodePledgeSnapshot", "LoadConsensusNodes",
+	}
+	nStep := len(stepNames)
+	menu := []uint64{c29Epoch + 300*c29Day + 3*c29Hour, pinned, c29Epoch + 301*c29Day + 15*c29Hour, c29Epoch + c29Day + 13*c29Hour, c29Epoch + 100*c29Day}
+	type job struct{ n, pat, first int }
+	var jobs []job
+	for _, n := range []int{7, 9, 12} {
+		for pat := 0; pat < 2; pat++ {
+			for f := 0; f < nStep; f++ {
+				jobs = append(jobs, job{n, pat, f})
+			}
+		}
+	}
+	pledgeTx := common.NewTransactionV5(common.XINAssetId)
+	pledgeTx.AddInput(fixc.Hash("c29-history-pledge-input"), 0)
+	pledgeTx.AddOutputWithType(common.OutputTypeNodePledge, nil, common.Script{}, common.KernelNodePledgeAmount, fixc.Seed64("c29-history-pledge"))
+	pledgeTx.Extra = append(c29Signers[53].PublicSpendKey[:], c29Payees[53].PublicSpendKey[:]...)
+	pledgeVer := pledgeTx.AsVersioned()
+
+	// what a node answers: every elected operation and the removal candidate at every menu instant
+	answers := func(node *Node) (string, any) {
+		var b strings.Builder
+		var pv any
+		for _, ts := range menu {
+			for _, o := range c29Ops {
+				if !o.elected {
+					continue
+				}
+				h, p := c29Elect(node, o.op, ts)
+				if p != nil {
+					pv = p
+				}
+				fmt.Fprintf(&b, "%s@%d=%s;", o.name, ts, h)
+			}
+			cn, err, p := c29Candidate(node, crypto.Hash{}, ts)
+			if p != nil {
+				pv = p
+			}
+			if err == nil && cn != nil {
+				fmt.Fprintf(&b, "candidate@%d=%s;", ts, cn.IdForNetwork)
+			}
+		}
+		return b.String(), pv
+	}
+	build := func(n, pat int) (*Node, error) {
+		recs := c29Config{n, pat, 0}.records()
+		order := make([]int, len(recs))
+		for i := range order {
+			order[i] = i
+		}
+		node, err := c29BuildNode(recs, order, pat == 0)
+		if err != nil {
+			return nil, err
+		}
+		// a chain with a state for every accepted peer, all leading
+		for i := 0; i < n; i++ {
+			id := c29Id(i)
+			node.chains.m[id] = &Chain{node: node, ChainId: id, State: &ChainState{
+				CacheRound: &CacheRound{NodeId: id, Number: 1, Timestamp: pinned},
+				FinalRound: &FinalRound{NodeId: id, Number: 0, Start: pinned + c29Hour},
+			}}
+		}
+		node.IdForNetwork = c29Id(n - 1)
+		node.chain = node.chains.m[node.IdForNetwork]
+		return node, nil
+	}
+
+	var mu sync.Mutex
+	counts := map[string]int64{}
+	var sequences int64
+	c.ParallelN(len(jobs), "election histories", func(_, ji int) {
+		j := jobs[ji]
+		fresh, err := build(j.n, j.pat)
+		if err != nil {
+			c.Require(false, "history reference node: %v", err)
+			return
+		}
+		want, wp := answers(fresh)
+		wantPrint := c29Fingerprint(fresh)
+		if wp != nil {
+			c.Require(false, "history reference node panicked: %v", wp)
+			return
+		}
+		local := map[string]int64{}
+		var evals, seqs int64
+		run := func(seq []int) {
+			seqs++
+			node, err := build(j.n, j.pat)
+			if err != nil {
+				c.Require(false, "history node: %v", err)
+				return
+			}
+			name := ""
+			for i, st := range seq {
+				if i > 0 {
+					name += " ; "
+				}
+				name += stepNames[st]
+			}
+			for _, st := range seq {
+				lag := func(which func(i int) bool) {
+					for i := 0; i < j.n; i++ {
+						start := pinned + c29Hour
+						if which(i) {
+							start = 1
+						}
+						node.chains.m[c29Id(i)].State.FinalRound.Start = start
+					}
+				}
+				p := verifmc.Catch(func() {
+					switch st {
+					case 0:
+						answers(node)
+					case 1, 2, 3:
+						switch st {
+						case 1:
+							lag(func(int) bool { return false })
+						case 2:
+							// lagging peers are chosen by position in the working list: the first and every third
+							l := node.NodesListWithoutState(clock.NowUnixNano(), true)
+							lagging := map[crypto.Hash]bool{}
+							for i, cn := range l {
+								if i%3 == 0 && i != len(l)-1 {
+									lagging[cn.IdForNetwork] = true
+								}
+							}
+							lag(func(i int) bool { return lagging[c29Id(i)] })
+						case 3:
+							lag(func(int) bool { return true })
+						}
+						all := node.ListWorkingAcceptedNodes(clock.NowUnixNano())
+						node.filterLeadingNodes(all)
+					case 4:
+						node.QueueState()
+					case 5:
+						_, _ = node.ListMintWorks(300)
+					case 6:
+						node.chain.determineBestRound(pinned)
+					case 7:
+						_, _ = node.checkRemovePossibility(node.IdForNetwork, pinned, nil)
+						node.PledgingNode(pinned)
+						node.ReadAllNodesWithoutState()
+						node.GetRemovedOrCancelledNode(node.IdForNetwork, pinned)
+					case 8:
+						node.chain.ConsensusKeys(1, pinned)
+						node.ConsensusThreshold(pinned, true)
+					case 9:
+						ts := c29Epoch + 300*c29Day + 3*c29Hour
+						s := &common.Snapshot{Version: common.SnapshotVersionCommonEncoding, NodeId: node.electSnapshotNode(common.TransactionTypeNodePledge, ts), Timestamp: ts}
+						_ = node.validateNodePledgeSnapshot(s, pledgeVer, false)
+					case 10:
+						_ = node.LoadConsensusNodes()
+					}
+				})
+				if p != nil {
+					c.Require(false, "history n=%d/%s [%s]: step %s panicked: %v", j.n, c29PatNames[j.pat], name, stepNames[st], p)
+					return
+				}
+				got, gp := answers(node)
+				evals += int64(len(menu) * 6)
+				replay := map[string]any{"n": j.n, "pattern": c29PatNames[j.pat], "sequence": name, "steps": append([]int{}, seq...), "failing_step": stepNames[st], "local_clock": pinned, "epoch": c29Epoch}
+				if print := c29Fingerprint(node); print != wantPrint {
+					local["membership-mutated"]++
+					c.Violation("membership:cached-list-mutated:"+stepNames[st], fmt.Sprintf("n=%d/%s after [%s]: step %s changed the node's cached membership lists (a node freshly loaded from the same store has different lists)", j.n, c29PatNames[j.pat], name, stepNames[st]), replay)
+				}
+				if gp != nil || got != want {
+					local["history-dependent"]++
+					diff := ""
+					ga, wa := strings.Split(got, ";"), strings.Split(want, ";")
+					for i := range wa {
+						if i < len(ga) && ga[i] != wa[i] {
+							diff = fmt.Sprintf("this node: %s, freshly loaded node: %s", ga[i], wa[i])
+							break
+						}
+					}
+					c.Violation("elect:history-dependent:"+stepNames[st], fmt.Sprintf("n=%d/%s after [%s]: elections differ from a node freshly loaded from the same store (%s; panic %v)", j.n, c29PatNames[j.pat], name, diff, gp), replay)
+					return
+				}
+				local["history-step-compared"]++
+			}
+			c.Distinct(fmt.Sprintf("history|%d|%d|%v", j.n, j.pat, seq))
+		}
+		tail := make([]int, 0, depth)
+		var rec func()
+		rec = func() {
+			run(append([]int{j.first}, tail...))
+			if len(tail)+1 >= depth || c.Expired("election histories") {
+				return
+			}
+			for st := 0; st < nStep; st++ {
+				tail = append(tail, st)
+				rec()
+				tail = tail[:len(tail)-1]
+			}
+		}
+		rec()
+		c.Eval(evals)
+		mu.Lock()
+		for k, v := range local {
+			counts[k] += v
+		}
+		sequences += seqs
+		mu.Unlock()
+	})
+	for k, v := range counts {
+		c.Outcome("history:" + k)
+		c.Set("count:history:"+k, v)
+	}
+	c.Set("history_sequences", sequences)
+	c.Set("history_depth", int64(depth))
+	if c.Violations() == 0 && !c.Expired("history guards") {
+		c.Require(counts["history-step-compared"] > 0, "no history step was compared")
+	}
 }
